@@ -66,5 +66,15 @@ func init() {
 	}
 	I["(*encoding/base64.Encoding).EncodeToString"] = enc
 	I["(encoding/base64.Encoding).EncodeToString"] = enc
+	// strconv.small(i): the 1- or 2-digit rendering used by the AppendInt/FormatInt fast path.
+	smallF := func(m *Machine, _ *frame, _ token.Pos, _ *ssa.Function, a []Value) Value {
+		t := a[0].(*sym.Term)
+		if t.IsConst() {
+			return Str{S: fmt.Sprint(t.Int64())}
+		}
+		return m.fmtSymInt(t, true)
+	}
+	I["strconv.small"] = smallF
+	I["internal/strconv.small"] = smallF
 	_ = fmt.Sprint
 }
